@@ -66,7 +66,7 @@ MUTATIONS = [
     ("c06-no-notify-exit", "scheduler/base.py", "            logging.debug(\"Updated number of unfinished jobs\")\n            self.xp.central.exitCondition.notify_all()", "            logging.debug(\"Updated number of unfinished jobs\")", ["C06"]),
     ("c06-nonzero-is-done", "scheduler/base.py", "                    state = JobState.DONE if code == 0 else JobState.ERROR\n\n            except JobError:", "                    state = JobState.DONE\n\n            except JobError:", ["C06", "C07"]),
     # C07
-    ("c07-fail-not-error", "scheduler/base.py", "            if not self.state.finished():\n                self.state = JobState.ERROR\n                self.failure_status = JobFailureStatus.DEPENDENCY\n                self._readyEvent.set()", "            pass", ["C07", "C06"]),
+    ("c07-fail-not-error", "scheduler/base.py", "            if self.state.notstarted():\n                self.state = JobState.ERROR\n                self.failure_status = JobFailureStatus.DEPENDENCY\n                self._readyEvent.set()", "            pass", ["C07", "C06"]),
     ("c07-no-dependents-recheck", "scheduler/base.py", "            for dependency in dependents:\n                logger.debug(\"Checking dependency %s\", dependency)\n                self.loop.call_soon(dependency.check)", "            pass", ["C07", "C06", "C04"]),
     ("c07-no-failedjobs", "scheduler/base.py", "        if job.state != JobState.DONE:\n            self.xp.failedJobs[job.identifier] = job", "        pass", ["C07"]),
     # C08
